@@ -234,6 +234,35 @@ func genDevice(r *RNG, b *asaDev) (*asaDev, []string) {
 			}
 			a.Groups[g] = ms
 			say("replace-members")
+		case k < 40 && len(a.GOrder) > 0:
+			// a group used by a line further down is replaced as a whole, and a line of the opposite action differs above it
+			g := Pick(r, a.GOrder)
+			for _, name := range a.AOrder {
+				ls := a.ACLs[name]
+				for i := 1; i < len(ls); i++ {
+					if contains(refsOf(ls[i]), g) {
+						var ms []string
+						for _, m := range members {
+							if !contains(a.Groups[g], m) && len(ms) < 3 {
+								ms = append(ms, m)
+							}
+						}
+						if len(ms) == 0 {
+							break
+						}
+						a.Groups[g] = ms
+						j := r.Intn(i)
+						if strings.HasPrefix(ls[i], "permit") {
+							ls[j] = "deny ip any4 any4 log"
+						} else {
+							ls[j] = "permit ip any4 any4 log"
+						}
+						a.ACLs[name] = dedupBodies(ls)
+						say("group-replaced-and-opposite-line-above")
+						break
+					}
+				}
+			}
 		case k < 44 && len(a.GOrder) > 0:
 			// duplicate group (tie): identical content under another name, unreferenced or referenced by one line
 			g := Pick(r, a.GOrder)
@@ -603,6 +632,69 @@ func run(ctx *Ctx) *Result {
 			}
 		}
 		if prop == "C14" {
+			// ACL step safety with object-groups: every packet on which the bound ACL of a managed interface gives the
+			// same verdict before and after gets that verdict after every command. Membership edits of existing groups
+			// are outside the property: such scripts are skipped for this part.
+			groupEdit := false
+			mode := ""
+			for _, cmd := range cmds {
+				if strings.HasPrefix(cmd, "object-group network ") {
+					mode = strings.Fields(cmd)[2]
+				} else if strings.HasPrefix(cmd, "network-object ") || strings.HasPrefix(cmd, "no network-object ") {
+					if _, existed := c.dev.Groups[mode]; existed {
+						groupEdit = true
+					}
+				} else {
+					mode = ""
+				}
+			}
+			if groupEdit {
+				res.Count("c14-acl-skipped-membership-edit")
+			} else {
+				joined := map[int]bool{}
+				idx := 0
+				for _, line := range strings.Split(strings.TrimSuffix(out, "\n"), "\n") {
+					if line == "" {
+						continue
+					}
+					h := strings.Split(line, "\\N ")
+					if len(h) == 2 {
+						joined[idx] = true
+					}
+					idx += len(h)
+				}
+			steps:
+				for _, key := range c.Bindings {
+					if _, ok := c.dev.Bind[key]; !ok {
+						continue
+					}
+					for _, p := range pktUniverse {
+						v0, v1 := c.dev.verdict(key, p), final.verdict(key, p)
+						if v0 != v1 || v0 < 0 {
+							continue
+						}
+						for k, st := range states {
+							if joined[k] {
+								continue
+							}
+							if v := st.verdict(key, p); v != v0 {
+								moved := false
+								if k > 0 && joined[k-1] {
+									moved = true
+								}
+								pred := "acl_step_unsafe_other"
+								if moved {
+									pred = "move_down_across_pending_opposite_delete"
+								}
+								res.Fail(map[string]any{"pred": pred, "backend": "asa", "first_access_group": firstOnIface},
+									fmt.Sprintf("after command %d (%s) packet %v at %s gets verdict %d, before and after the run it is %d", k, cmds[k], p, key, v, v0), c)
+								break steps
+							}
+						}
+					}
+				}
+				res.Count("c14-acl-steps-checked")
+			}
 			// every destination that has a route before and after has one after each command
 			// (the two halves of a joined line count as one step: check after the second half only)
 			dsts := func(d *asaDev) map[string]bool {
